@@ -135,7 +135,8 @@ fn diff_value(key: &str, v: &str) -> &'static str {
 /// variant bits: 1 = CRLF, 2 = BOM, 4 = comments and blank lines, 8 = repeat section headers,
 /// 16 = trailing whitespace, 32 = UTF-16LE with BOM (bytes / path only), 64 = a comment line with a stray Latin-1 byte
 /// (not valid UTF-8; bytes / path only), 128 = leading whitespace on every line and "Key : Value" spacing,
-/// 256 = a blank first line and no final newline, 512 = an empty and an unknown section before every section header
+/// 256 = a blank first line and no final newline, 512 = an empty and an unknown section before every section header,
+/// 1024 = a trailing `// comment` on every content line
 pub fn render(lines: &[Line], variant: u32, salt: usize) -> Vec<u8> {
     let nl = if variant & 1 != 0 { "\r\n" } else { "\n" };
     let mut s = String::new();
@@ -207,6 +208,9 @@ pub fn render(lines: &[Line], variant: u32, salt: usize) -> Vec<u8> {
             }
         } else {
             s.push_str(&text);
+        }
+        if variant & 1024 != 0 {
+            s.push_str(if i % 2 == 0 { " // c" } else { "//c" });
         }
         if variant & 16 != 0 {
             s.push_str("  ");
@@ -414,7 +418,7 @@ fn run_one(i: usize, sc: &Scenario, seed: u64, tmp: &str, out: &mut Out) {
         }
     }
     // one byte-level variant of the same content (same bad-line pool entries)
-    let variant = [1u32, 2, 4, 8, 16, 32, 1 | 2 | 16, 4 | 8, 64, 64 | 1 | 2, 128, 256, 512, 128 | 256 | 1, 512 | 4 | 16][(salt / 3) % 15];
+    let variant = [1u32, 2, 4, 8, 16, 32, 1 | 2 | 16, 4 | 8, 64, 64 | 1 | 2, 128, 256, 512, 128 | 256 | 1, 512 | 4 | 16, 1024, 1024 | 1 | 16][(salt / 3) % 17];
     let vb = render(&sc.lines, variant, salt);
     let d = guarded(|| Beatmap::from_bytes(&vb));
     out.decodes += 1;
